@@ -277,7 +277,7 @@ class NDArray:
         return bool(self.shape) and not is_sym(self.shape[0])
 
     def _rows(self):
-        return SymSeq(self.shape[0], lambda k: self._getitem_norm((k,)), 'rows')
+        return SymSeq(self.shape[0], lambda k: self._getitem_norm((k,), check=False), 'rows')   # at(k) is only defined for 0 <= k < length
 
     def _enumerate(self, start=0):
         return self._rows()._enumerate(start)
@@ -845,6 +845,11 @@ def asarray(x, dtype=None):
         if isinstance(subs[0], NDArray):
             return stack(subs, axis=0, dtype=dtype)
         vals = subs
+        if dtype is None:
+            cats = {guess_dtype(v).kind if hasattr(guess_dtype(v), 'kind') else str(guess_dtype(v)) for v in vals}
+            if len(cats) > 1:
+                # e.g. (kind, 0, 3): numpy coerces every element to a common dtype (here: strings)
+                raise Unsupported(f'numpy.asarray of a sequence mixing element types {sorted(cats)}: the coercion to a common dtype is not modelled')
 
         def fn(i, vals=vals):
             k = i[0]
